@@ -874,6 +874,9 @@ def oracle_decode(seq, res, name):
 
 # ------------------------------------------------------------------------------------------------ one case, all front-ends
 
+_PREVIOUS = {}
+
+
 def run_case(ctx, seq, label, term=b'', tbq=False, frontends=None, cache=None, tmpdir=None, want=('C03', 'C07', 'C18'),
              scoped=None, stops=None):
     """Run one sequence through the front-ends; correspondence always, the oracles of `want` when the sequence is inside
@@ -883,6 +886,9 @@ def run_case(ctx, seq, label, term=b'', tbq=False, frontends=None, cache=None, t
     frontends = frontends or FRONTENDS
     results = {}
     case = {'label': label, 'term': term.hex(), 'tbq': tbq, 'lines': [d['hex'] for d in seq]}
+    previous = _PREVIOUS.get('case')          # a failure caused by state that an EARLIER reader / queue left behind (class-level
+    if not _PREVIOUS.get('replaying'):        # or module-level state in the library) only reproduces after that earlier case
+        _PREVIOUS['case'] = {'seq': seq, 'term': term.hex(), 'tbq': tbq, 'label': label, 'frontends': list(frontends or FRONTENDS)}
     scoped = in_scope(seq) if scoped is None else scoped
     pairwise_only = label.startswith('pairwise-only')
     if pairwise_only:
@@ -905,7 +911,7 @@ def run_case(ctx, seq, label, term=b'', tbq=False, frontends=None, cache=None, t
                        strip_wrapper=(tuple(want) == ('C03',)))
         if not scoped or ctx.model is None:
             continue
-        replay = {'seq': seq, 'term': term.hex(), 'tbq': tbq, 'frontend': name}
+        replay = {'seq': seq, 'term': term.hex(), 'tbq': tbq, 'label': label, 'previous': previous, 'frontend': name}
         if 'C03' in want:
             for comp, kind, text in oracle_c03(spec_per, res, name):
                 rep.violation({'entry': name, 'component': comp, 'kind': kind}, f'{text} [{label}]', replay)
@@ -938,7 +944,7 @@ def run_case(ctx, seq, label, term=b'', tbq=False, frontends=None, cache=None, t
         if scoped and ctx.model is not None and 'C03' in want:
             for comp, kind, text in oracle_c03(spec_per, res3, 'ByteStream/resumed'):
                 rep.violation({'entry': 'ByteStream/resumed', 'component': comp, 'kind': kind}, f'{text} [{label}]',
-                              {'seq': seq, 'term': term.hex(), 'tbq': tbq, 'frontend': 'ByteStream/resumed'})
+                              {'seq': seq, 'term': term.hex(), 'tbq': tbq, 'label': label, 'previous': previous, 'frontend': 'ByteStream/resumed'})
     if label.startswith('sequential') and 'ByteStream' in frontends:
         # the source runs dry at quiescent points (always right after a wrapper line) and the SAME reader is iterated again when
         # more lines have arrived: deliveries and their wrappers must be those of uninterrupted reading
@@ -956,7 +962,7 @@ def run_case(ctx, seq, label, term=b'', tbq=False, frontends=None, cache=None, t
             rep.case((nm4, tbq, term, tuple(case['lines'])), kind='frontend:' + nm4)
             rep.count('polled:stops', len(stops))
             if scoped and ctx.model is not None:
-                rp = {'seq': seq, 'term': term.hex(), 'tbq': tbq, 'frontend': nm4, 'stops': stops}
+                rp = {'seq': seq, 'term': term.hex(), 'tbq': tbq, 'label': label, 'previous': previous, 'frontend': nm4, 'stops': stops}
                 if 'C03' in want:
                     for comp, kind, text in oracle_c03(spec_per, res4, nm4):
                         rep.violation({'entry': nm4, 'component': comp, 'kind': kind}, f'{text} [{label}]', rp)
@@ -966,7 +972,7 @@ def run_case(ctx, seq, label, term=b'', tbq=False, frontends=None, cache=None, t
     if (scoped or pairwise_only) and 'C07' in want and len(frontends) > 1:
         for nm, comp, kind, text in oracle_c07(results):
             rep.violation({'entry': nm, 'component': comp, 'kind': kind}, f'{text} [{label}]',
-                          {'seq': seq, 'term': term.hex(), 'tbq': tbq, 'frontend': nm, 'reference': frontends[0]})
+                          {'seq': seq, 'term': term.hex(), 'tbq': tbq, 'label': label, 'previous': previous, 'frontend': nm, 'reference': frontends[0]})
     rep.count('scoped' if scoped else 'correspondence-only')
     return results
 
@@ -1235,18 +1241,31 @@ def replay_case(ctx, data, want):
         fes = [data['frontend']]
         if data.get('reference'):
             fes = [data['reference'], data['frontend']]
-        label = 'replay'
+        label = data.get('label') or 'replay'     # (the label decides which oracles apply: 'pairwise-only:...', 'sequential')
         if any('/' in f for f in fes):
             # a derived front-end (ByteStream/resumed, <reader>/polled, SocketStream/chunked): run_case derives them from the
             # plain ones of a 'sequential' case
-            label = 'sequential:replay'
+            if not label.startswith('sequential'):
+                label = 'sequential:replay'
             fes = sorted({f.split('/')[0] for f in fes} | ({'ByteStream'} if any('/polled' in f or '/resumed' in f for f in fes) else set()))
-        before = len(ctx.rep.violations)
-        run_case(ctx, data['seq'], label, term=bytes.fromhex(data['term']), tbq=data['tbq'], frontends=fes, tmpdir=tmpdir,
-                 want=want, stops=data.get('stops'))
-        new = ctx.rep.violations[before:]
-        same = [v for v in new if v['signature'].get('entry') == data['frontend']]
-        return (same or new)[0]['what'] if new else None
+
+        def once():
+            before = len(ctx.rep.violations)
+            run_case(ctx, data['seq'], label, term=bytes.fromhex(data['term']), tbq=data['tbq'], frontends=fes, tmpdir=tmpdir,
+                     want=want, stops=data.get('stops'))
+            new = ctx.rep.violations[before:]
+            same = [v for v in new if v['signature'].get('entry') == data['frontend']]
+            return (same or new)[0]['what'] if new else None
+        _PREVIOUS['replaying'] = True
+        prev = data.get('previous')
+        if prev:
+            # the case that preceded it in the recorded run first (same process, new reader / queue objects): a failure caused
+            # by state that leaks between objects needs it
+            quiet = len(ctx.rep.violations)
+            run_case(ctx, prev['seq'], prev['label'], term=bytes.fromhex(prev['term']), tbq=prev['tbq'],
+                     frontends=prev.get('frontends'), tmpdir=tmpdir, want=want)
+            del ctx.rep.violations[quiet:]
+        return once()
     finally:
         shutil.rmtree(tmpdir, ignore_errors=True)
         if own:
